@@ -17,6 +17,7 @@ import Driver.ListingOps
 import Driver.NumParseOps
 import Driver.MemViewOps
 import Driver.UIOps
+import Driver.EmuOps
 /-
 Registry of all operation handlers of the model driver.  One line per component.
 -/
@@ -41,6 +42,7 @@ def allHandlers : List (String × Handler) :=
   listingHandlers ++
   numParseHandlers ++
   memViewHandlers ++
-  uiHandlers
+  uiHandlers ++
+  emuHandlers
 
 end Driver
